@@ -230,7 +230,10 @@ def rule_state(ctx):
   ctx.record(R, f.where, "InsufficientDataError => finished without a state", okx, "handler sets finished = True, returns True, assigns no state" if okx else
              "insufficient data is not handled as `finished, no verdict`")
   # ---- float wrapping
-  wrap = [e for e in w.events if e.kind == "assign" and e.data["name"] == "test_result" and isinstance(e.data["value"], Seq)]
+  # the wrapped value: [(label, <what the test returned>)] bound under an isinstance(.., float/int) test (whatever the local is called)
+  tcall = [e.data["value"] for e in w.events if e.kind == "call" and e.data["name"] == "meth:test" and isinstance(e.data.get("value"), Poly)]
+  wrap = [e for e in w.events if e.kind == "assign" and isinstance(e.data["value"], Seq) and len(e.data["value"].items) == 1 and isinstance(e.data["value"].items[0], Seq)
+          and len(e.data["value"].items[0].items) == 2 and isinstance(e.data["value"].items[0].items[1], Poly) and any(e.data["value"].items[0].items[1] == t_ for t_ in tcall)]
   okw = bool(wrap) and all(len(e.data["value"].items) == 1 and isinstance(e.data["value"].items[0], Seq) and len(e.data["value"].items[0].items) == 2 for e in wrap) and \
       all(any("isinstance" in repr(c) and "float" in repr(c) for c, pol, node in e.state.pc if pol) for e in wrap)
   ctx.record(R, f.where, "single float wrapped as one named value", okw, "[(name, value)] when the test returns a number" if okw else "plain float results are not wrapped")
@@ -272,7 +275,24 @@ def rule_entry(ctx):
   # ---- Failed
   f = repo.func(MOD, "TestStructure.Failed")
   src = norm(f.node.body[-1])
-  okF = src in ("return any((state == State.FAILED for state in self.state.values()))", "return any(state == State.FAILED for state in self.state.values())")
+  wF = sym.Walker(repo, f)
+  wF.run()
+  svF = state_values(repo)
+  okF = False
+  retsF = [t_ for t_ in wF.terminals if t_[0] == "return"]
+  if len(retsF) == 1 and isinstance(retsF[0][1], Poly):
+    aF = retsF[0][1].as_atom()
+    mF = as_poly(aF.args[0]).as_atom() if aF is not None and aF.kind == "any" and aF.args else None
+    if mF is not None and mF.kind == "map" and len(mF.args) == 3:
+      elt, bv, srcF = mF.args
+      vals = sym.mk("values", sym.mk("attr", SELF, "state"))
+      cF = sym.ITE_CONDS.get(elt.as_atom().args[0]) if isinstance(elt, Poly) and elt.as_atom() is not None and elt.as_atom().kind == "cond" else None
+      if cF is None and isinstance(elt, Poly) and elt.as_atom() is not None and elt.as_atom().kind == "cond":
+        # a bare comparison used as the element: its tree is recoverable from the text only in the simple form  x == <int>
+        import re as _re
+        mm = _re.search(r"\('cmp', 'Eq', (.*), (\d+)\)$", elt.as_atom().args[0])
+        if mm and int(mm.group(2)) == svF["FAILED"] and mm.group(1) == repr(sym.mk("idx", vals, Poly.atom(bv) if not isinstance(bv, Poly) else bv)) and as_poly(srcF) == vals:
+          okF = True
   ctx.record(R, f.where, "Failed <=> some state is FAILED", okF, "any(state == FAILED)" if okF else "Failed is `%s`" % src)
   # ---- TestSource / TestBitString: read from the walker (list built by an append loop or a comprehension, `continue` or nested `if`, any names)
   TESTS = P("ref", MOD + ".TESTS")
